@@ -35,8 +35,13 @@ type c09Config struct {
 	PanicAt int `json:"callback_panics_at"`
 	// NoWrap: the store is not wrapped (yield points are then the lock
 	// operations, the size function and the callback only).
-	NoWrap   bool `json:"store_not_wrapped"`
-	SizeLast bool `json:"with_size_called_after_on_evict"`
+	// Bystander: a second, independent cache is used by the same threads in
+	// between their calls on the first (its results are not judged; two caches
+	// must not share anything, which the race detector and the first cache's
+	// oracles would notice).
+	Bystander bool `json:"second_cache_in_use"`
+	NoWrap    bool `json:"store_not_wrapped"`
+	SizeLast  bool `json:"with_size_called_after_on_evict"`
 }
 
 var c09Stay = []int{0, 1, 3, 10, 50}
@@ -72,6 +77,7 @@ func drawC09Config(ch chooser.Chooser) c09Config {
 	if c.Weights[OpClear] > 1 {
 		c.Weights[OpClear] = 1
 	}
+	c.Bystander = ch.Draw(4, "bystander") == 3
 	c.NoWrap = ch.Draw(3, "nowrap") == 2
 	c.SizeLast = ch.Draw(2, "sizelast") == 1
 	if ch.Draw(8, "cbpanic?") == 7 {
@@ -233,6 +239,24 @@ func runC09(ch chooser.Chooser, st *Stats, mk cacheMaker) *Outcome {
 		stamp += 2
 	}
 
+	// The bystander cache and what each thread does to it.
+	var c2 cacheAPI
+	var env2 *cacheEnv
+	ops2 := make([][]Op, cfg.Threads)
+	if cfg.Bystander {
+		env2 = &cacheEnv{limit: 2, yields: true, noWrap: true, cbs: make([][]KV, cfg.Threads+1), cur: sched.CurrentTid}
+		if p := safely(func() { c2 = mk(env2) }); p != "" {
+			return fail("panic", "constructing a second cache panicked: "+p)
+		}
+		for t := range ops2 {
+			for i := 0; i < cfg.OpsPer[t]; i++ {
+				op := Op{Kind: []int{OpPut, OpGet, OpPut, OpRemove}[ch.Draw(4, "op2")], K: ch.Draw(3, "key2"), V: 1000 + t*8 + i}
+				ops2[t] = append(ops2[t], op)
+			}
+		}
+		st.Inc("probe:second_cache_in_use", 1)
+	}
+
 	// Per-thread observation slots: written by their own thread, read after the join.
 	obs := make([][]Obs, cfg.Threads)
 	pan := make([][]string, cfg.Threads)
@@ -247,6 +271,12 @@ func runC09(ch chooser.Chooser, st *Stats, mk cacheMaker) *Outcome {
 	for t := range bodies {
 		bodies[t] = func(tid int) {
 			for i, op := range ops[tid] {
+				if c2 != nil {
+					if p := threadSafely(func() { execOp(c2, env2, tid, ops2[tid][i]) }); p != "" {
+						pan[tid][i] = "second cache: " + p
+						return
+					}
+				}
 				sched.Yield(sched.KInvoke, int64(i), int64(op.Kind)<<48|int64(op.K)<<32|int64(uint32(op.V)))
 				var ob Obs
 				p := threadSafely(func() { ob = execOp(c, env, tid, op) })
@@ -291,6 +321,9 @@ func runC09(ch chooser.Chooser, st *Stats, mk cacheMaker) *Outcome {
 			cl, started := calls[key{t, i}]
 			rt, finished := rets[key{t, i}]
 			if !started {
+				if pan[t][i] != "" && firstPanic == "" {
+					firstPanic = fmt.Sprintf("thread %d: %s", t, pan[t][i])
+				}
 				continue
 			}
 			h := histOp{Tid: t, Op: op, Ob: obs[t][i], Call: cl, Ret: rt, Panic: pan[t][i], completed: finished}
